@@ -3,7 +3,7 @@
 Bounded-exhaustive exploration of `opticomlib.devices.FBG`:
 
 * part `lattice`  : deviation lattice (k <= 2, both tiers) around one
-                    baseline design over 17 axes: sampling rate, input length (powers of two, odd, prime, non-smooth,
+                    baseline design over 15 axes: sampling rate, input length (powers of two, odd, prime, non-smooth,
                     even non-power-of-two), layout (1/2 polarisations, second one zero, n_pol=2, noise forms),
                     input field (content, sample dtype, scale), filtfilt, call form (retH / no retH / print / positional),
                     kL, kL form (whole number of periods | the exact number), vdneff, F, apodisation (names, callable
